@@ -69,8 +69,13 @@ class GB:
         return n
 
     def const(self, dt, shape, vals, p="c"):
+        vals = [float(v) if dt in "fdh" else int(v) for v in vals]
+        # identical constants are usually one shared initializer in lowered models
+        for n0, dt0, shape0, vals0 in self.inits:
+            if dt0 == dt and shape0 == list(shape) and vals0 == vals and self.draw(st.integers(0, 3)) > 0:
+                return n0
         n = self.fresh(p)
-        self.inits.append([n, dt, list(shape), [float(v) if dt in "fdh" else int(v) for v in vals]])
+        self.inits.append([n, dt, list(shape), vals])
         return n
 
     def node(self, op, ins, outs_types, attrs=None, graphs=None, inherit=None):
@@ -242,6 +247,27 @@ class GB:
         q = inv_perm(p) if self.draw(st.integers(0, 6)) else self.draw(st.sampled_from(PERMS[r]))
         return self.transpose(red, q)
 
+    def pat_treduce2(self):
+        """Two Transpose->ReduceMean->Transpose^-1 patterns sharing one axes initializer, with different permutations."""
+        src = self.pick(lambda n, dt, s: dt == "f" and len(s) in (3, 4))
+        if src is None:
+            return
+        dt, shape = self.vals[src]
+        r = len(shape)
+        axes = self.draw(st.lists(st.integers(-r, r - 1), min_size=1, max_size=2, unique_by=lambda x: x % r))
+        ax = self.const("l", [len(axes)], axes, "axes")
+        norm = sorted(x % r for x in axes)
+        last = None
+        perms = self.draw(st.lists(st.sampled_from(PERMS[r]), min_size=2, max_size=2, unique=True))
+        for p in perms:
+            s_i = src if self.draw(st.booleans()) else (self.pick(lambda n, d2, s2: d2 == dt and s2 == shape) or src)
+            a = self.transpose(s_i, p)
+            ashape = self.vals[a][1]
+            rs = tuple(1 if i in norm else d for i, d in enumerate(ashape))
+            red = self.node("ReduceMean", [a, ax], [(dt, rs)], {"keepdims": 1})
+            last = self.transpose(red, inv_perm(p))
+        return last
+
     def pat_addforest(self):
         src = self.pick(lambda n, dt, s: dt == "f" and len(s) in PERMS)
         if src is None:
@@ -262,11 +288,25 @@ class GB:
         for l in leaves[1:]:
             cur = self.node("Add", [cur, l] if self.draw(st.booleans()) else [l, cur], [tshape])
             adds.append(cur)
+        if len(adds) >= 2 and self.draw(st.booleans()):
+            # an interior Add whose operands are both forest Adds
+            adds.append(self.node("Add", [adds[-2], adds[-1]] if self.draw(st.booleans()) else [adds[0], adds[-1]], [tshape]))
         outs = []
         q = inv_perm(p) if self.draw(st.integers(0, 6)) else self.draw(st.sampled_from(PERMS[len(shape)]))
         for a in adds[-2:] if self.draw(st.integers(0, 2)) == 0 else adds[-1:]:
             outs.append(self.transpose(a, q))
+        if self.draw(st.integers(0, 2)) == 0:
+            self.reshape_perm(outs[-1])
         return outs[-1]
+
+    def reshape_perm(self, src):
+        """Reshape to a permutation of the value's own (static) shape: an identity only if the annotation is right."""
+        dt, shape = self.vals[src]
+        if not self.static(shape) or len(shape) < 2:
+            return None
+        perm = self.draw(st.permutations(range(len(shape))))
+        tgt = tuple(shape[i] for i in perm)
+        return self.reshape_to(src, tgt, tgt)
 
     def reshape_to(self, src, target_spec, out_shape):
         dt, _ = self.vals[src]
@@ -425,6 +465,16 @@ class GB:
         t_out, e_out = self.fresh("then"), self.fresh("else")
         then_g = {"nodes": [{"op": self.draw(st.sampled_from(["Relu", "Tanh", "Identity"])), "i": [v], "o": [t_out]}], "outputs": [[t_out, dt, list(shape)]]}
         else_g = {"nodes": [{"op": "Neg", "i": [v], "o": [e_out]}], "outputs": [[e_out, dt, list(shape)]]}
+        if self.draw(st.integers(0, 2)) == 0:
+            # capture only at nesting depth 2: If { If { f(v) } { g(v) } } { zeros-like constant path }
+            cond2 = self.add_input("b", ())
+            w_out, z_out = self.fresh("inner"), self.fresh("zero")
+            inner = {"nodes": [{"op": "If", "i": [cond2], "o": [w_out], "g": {"then_branch": then_g, "else_branch": else_g}}], "outputs": [[w_out, dt, list(shape)]]}
+            other = self.pick(lambda n, d2, s2: d2 == dt and s2 == shape and n != v) or self.inputs[0][0]
+            if self.vals[other] != (dt, shape):
+                return self.node("If", [cond], [(dt, shape)], graphs={"then_branch": inner, "else_branch": else_g})
+            outer_else = {"nodes": [{"op": "Abs", "i": [other], "o": [z_out]}], "outputs": [[z_out, dt, list(shape)]]}
+            return self.node("If", [cond], [(dt, shape)], graphs={"then_branch": inner, "else_branch": outer_else})
         return self.node("If", [cond], [(dt, shape)], graphs={"then_branch": then_g, "else_branch": else_g})
 
     def pat_loop(self):
@@ -438,8 +488,17 @@ class GB:
         cond = self.const("b", [], [1], "cond")
         acc0 = self.node("Identity", [v], [(dt, shape)])
         it, ci, ai, co, ao = (self.fresh(p) for p in ("it", "cin", "acc", "cout", "accout"))
+        if self.draw(st.integers(0, 2)) == 0:
+            # the capture sits in an If inside the Loop body (depth 2)
+            c2 = self.add_input("b", ())
+            t_o, e_o = self.fresh("lt"), self.fresh("le")
+            tg = {"nodes": [{"op": "Add", "i": [ai, v], "o": [t_o]}], "outputs": [[t_o, dt, list(shape)]]}
+            eg = {"nodes": [{"op": "Sub", "i": [ai, v], "o": [e_o]}], "outputs": [[e_o, dt, list(shape)]]}
+            body_nodes = [{"op": "If", "i": [c2], "o": [ao], "g": {"then_branch": tg, "else_branch": eg}}, {"op": "Identity", "i": [ci], "o": [co]}]
+        else:
+            body_nodes = [{"op": "Add", "i": [ai, v], "o": [ao]}, {"op": "Identity", "i": [ci], "o": [co]}]
         body = {"inputs": [[it, "l", []], [ci, "b", []], [ai, dt, list(shape)]],
-                "nodes": [{"op": "Add", "i": [ai, v], "o": [ao]}, {"op": "Identity", "i": [ci], "o": [co]}],
+                "nodes": body_nodes,
                 "outputs": [[co, "b", []], [ao, dt, list(shape)]]}
         return self.node("Loop", [trip, cond, acc0], [(dt, shape)], graphs={"body": body})
 
@@ -475,7 +534,7 @@ class GB:
             n = numel(shape)
             return self.reshape_to(src, (-1, shape[-1]), (n // shape[-1], shape[-1]))
         if k == "Rinv":
-            return
+            return self.reshape_perm(src)
         if k == "RM" and len(shape) >= 2:
             r = len(shape)
             axes = [self.draw(st.integers(0, r - 1))]
@@ -499,7 +558,7 @@ class GB:
         return
 
 
-PATTERNS = ["tpair", "tpair", "tpair", "tforest", "tforest", "treduce", "treduce", "addforest", "addforest", "rpair", "rpair", "rid",
+PATTERNS = ["tpair", "tpair", "tpair", "tforest", "tforest", "treduce", "treduce", "treduce2", "addforest", "addforest", "rpair", "rpair", "rid",
             "castpair", "identity_cast", "swish", "dropout", "cse", "range", "if", "loop"]
 
 
@@ -532,10 +591,15 @@ def graph_specs(draw, patterns=None, max_steps=6):
     outs = draw(st.lists(st.sampled_from(produced), min_size=k, max_size=k, unique=True))
     # every sink value is an output too (otherwise the pattern would be dead code) with high probability
     consumed = {i for nd in g.nodes for i in nd["i"]}
+    def _walk_sub(sg):
+        for sn in sg["nodes"]:
+            consumed.update(sn["i"])
+            for sg2 in (sn.get("g") or {}).values():
+                _walk_sub(sg2)
+
     for nd in g.nodes:
         for sg in (nd.get("g") or {}).values():
-            for sn in sg["nodes"]:
-                consumed.update(sn["i"])
+            _walk_sub(sg)
     sinks = [o for o in produced if o not in consumed]
     for s in sinks:
         if s not in outs and draw(st.integers(0, 7)) != 0:
@@ -621,12 +685,17 @@ def prune_spec(spec):
         if any(o in need for o in nd["o"]):
             keep.append(nd)
             need.update(i for i in nd["i"] if i)
-            for sg in (nd.get("g") or {}).values():
-                local = {i[0] for i in sg.get("inputs", [])}
+            def _free(sg, bound):
+                local = set(bound) | {i[0] for i in sg.get("inputs", [])}
                 for sn in sg["nodes"]:
                     local.update(sn["o"])
                 for sn in sg["nodes"]:
                     need.update(i for i in sn["i"] if i and i not in local)
+                    for sg2 in (sn.get("g") or {}).values():
+                        _free(sg2, local)
+
+            for sg in (nd.get("g") or {}).values():
+                _free(sg, set())
     keep.reverse()
     s = dict(spec)
     s["nodes"] = keep
